@@ -220,28 +220,37 @@ func (am *Machine) decryptDataFromParticipant(data []byte) ([]byte, error) {
 	return decryptedData, nil
 }
 
-func (am *Machine) GetOperationResult(operation client.Operation) (client.Operation, error) {
-	var (
-		err error
-	)
-	// handler gets a pointer to an operation, do necessary things
-	// and write a result (or an error) to .Result field of operation
+// handleOperation runs the handler of the operation's type. A malformed operation
+// (missing fields, truncated ciphertexts, invalid points...) may make a handler or the
+// crypto libraries below it panic; that is reported as a handler error like any other.
+func (am *Machine) handleOperation(operation *client.Operation) (err error) {
+	defer func() {
+		if r := recover(); r != nil {
+			err = fmt.Errorf("malformed operation: %v", r)
+		}
+	}()
 	switch fsm.State(operation.Type) {
 	case client.ReinitDKG:
-		err = am.handleReinitDKG(&operation)
+		return am.handleReinitDKG(operation)
 	case dkg_proposal_fsm.StateDkgCommitsAwaitConfirmations:
-		err = am.handleStateDkgCommitsAwaitConfirmations(&operation)
+		return am.handleStateDkgCommitsAwaitConfirmations(operation)
 	case dkg_proposal_fsm.StateDkgDealsAwaitConfirmations:
-		err = am.handleStateDkgDealsAwaitConfirmations(&operation)
+		return am.handleStateDkgDealsAwaitConfirmations(operation)
 	case dkg_proposal_fsm.StateDkgResponsesAwaitConfirmations:
-		err = am.handleStateDkgResponsesAwaitConfirmations(&operation)
+		return am.handleStateDkgResponsesAwaitConfirmations(operation)
 	case dkg_proposal_fsm.StateDkgMasterKeyAwaitConfirmations:
-		err = am.handleStateDkgMasterKeyAwaitConfirmations(&operation)
+		return am.handleStateDkgMasterKeyAwaitConfirmations(operation)
 	case signing_proposal_fsm.StateSigningAwaitPartialSigns:
-		err = am.handleStateSigningAwaitPartialSigns(&operation)
+		return am.handleStateSigningAwaitPartialSigns(operation)
 	default:
-		err = fmt.Errorf("invalid operation type: %s", operation.Type)
+		return fmt.Errorf("invalid operation type: %s", operation.Type)
 	}
+}
+
+func (am *Machine) GetOperationResult(operation client.Operation) (client.Operation, error) {
+	// handler gets a pointer to an operation, do necessary things
+	// and write a result (or an error) to .Result field of operation
+	err := am.handleOperation(&operation)
 
 	// if we have error after handling the operation, we write the error to the operation, so we can feed it to a FSM
 	if err != nil {
